@@ -193,3 +193,25 @@ def policy_arm(c, adt_suffix="ReadConsistencyPolicy"):
     if c.kind == "discr" and c.adt and strip_generics(c.adt).endswith(adt_suffix):
         return c.variants
     return None
+
+
+def lift_to_guard(F, body, bi, pred, depth=3, _seen=None):
+    """Follow a site up through its (non-test) callers until a function is reached in which the site
+    (resp. the call leading to it) is guarded by an edge satisfying pred.
+    -> [(outer body, outer block, guarded?, witness path)] ; unguarded entries are reported at the
+    outermost function (no callers / depth exhausted)."""
+    _seen = _seen if _seen is not None else set()
+    if (body.id, bi) in _seen:
+        return []
+    _seen.add((body.id, bi))
+    ok, wit, _ = guarded_by(body, bi, pred, edge_conditions(body))
+    if ok:
+        return [(body, bi, True, None)]
+    root = F.root_of[body.id]
+    callers = [c for c in F.callers_of(lambda k: k == root) if c[0] != root and not is_test_body(F.bodies[c[1]])]
+    if not callers or depth <= 0 or F.bodies[root].impl_of:
+        return [(body, bi, False, wit)]
+    out = []
+    for (croot, cbid, cbi, ct) in callers:
+        out.extend(lift_to_guard(F, F.bodies[cbid], cbi, pred, depth - 1, _seen))
+    return out or [(body, bi, False, wit)]
